@@ -462,6 +462,23 @@ def m_abs(I, args, kw):
     return abs(v)
 
 
+def m_next(I, args, kw):
+    """next(<generator expression>[, default]) - only for a generator expression that has not been touched since it was
+    created (the engine reads it eagerly as a list): its first item, else the default, else StopIteration."""
+    from .core import PyRaise
+    g = args[0]
+    fresh = I.path.ghost.get("genexp", set())
+    if not isinstance(g, Ref) or g.addr not in fresh:
+        raise Unsupported("next() on anything but a fresh generator expression")
+    fresh.discard(g.addr)
+    items = I.iter_concrete(g)
+    if items:
+        return items[0]
+    if len(args) > 1:
+        return args[1]
+    raise PyRaise(ExcV(StopIteration, ()))
+
+
 def m_divmod(I, args, kw):
     """divmod(a, b) == (a // b, a % b) - read through the engine's own // and % (constant positive divisor for symbolic a)."""
     import ast
@@ -1056,7 +1073,7 @@ def build_models():
         builtins.int: m_int, builtins.float: m_float, builtins.bool: m_bool, builtins.str: m_str,
         builtins.repr: m_repr, builtins.range: m_range, builtins.enumerate: m_enumerate,
         builtins.min: m_minmax("min"), builtins.max: m_minmax("max"), builtins.all: m_allany(True),
-        builtins.any: m_allany(False), builtins.sum: m_sum, builtins.abs: m_abs, builtins.divmod: m_divmod, builtins.hasattr: m_hasattr,
+        builtins.any: m_allany(False), builtins.sum: m_sum, builtins.abs: m_abs, builtins.divmod: m_divmod, builtins.next: m_next, builtins.hasattr: m_hasattr,
         builtins.getattr: m_getattr, builtins.setattr: m_setattr, builtins.ord: m_ord, builtins.chr: m_chr,
         builtins.hex: m_hex, builtins.hash: m_hash, builtins.print: m_print, builtins.sorted: m_sorted,
         builtins.zip: m_zip, builtins.reversed: m_reversed, builtins.callable: m_callable,
